@@ -232,20 +232,40 @@ def char_classes():
 
 
 # ---------------------------------------------------------------------------------------------
+def assemble(files, charset):
+    """end to end through tools/impl.py, inside one of this module's memory-limited workers"""
+    return impl.assemble(files, charset=charset)
+
+
 def _run(job):
     fn, args = job
     try:
         return globals()[fn](*args)
+    except MemoryError:
+        return {"kind": "crash", "outcome": "crash", "exc": "MemoryError", "diags": [], "crash": {"exc": "MemoryError", "frame": "?"}}
     except BaseException as ex:
-        return {"kind": "harness-error", "error": type(ex).__name__ + ": " + str(ex)[:300]}
+        return {"kind": "harness-error", "outcome": "harness-error", "error": type(ex).__name__ + ": " + str(ex)[:300]}
+
+
+MEMORY_LIMIT = 2 << 30
+
+
+def _limit_memory():
+    """worker initializer: a count such as 2**32 must end in MemoryError inside the worker (an observation),
+    never in the machine swapping.  Only ever applied to pool workers, never to the checking process itself."""
+    import resource
+    soft, hard = resource.getrlimit(resource.RLIMIT_AS)
+    lim = MEMORY_LIMIT if hard == resource.RLIM_INFINITY else min(MEMORY_LIMIT, hard)
+    resource.setrlimit(resource.RLIMIT_AS, (lim, hard))
 
 
 def pmap(fn, arglist, procs=None, chunksize=32):
+    """always through a pool of forked, memory-limited workers (also for a single job)"""
     import multiprocessing as mp
     procs = procs or min(16, os.cpu_count() or 4)
     jobs = [(fn, a) for a in arglist]
-    if len(jobs) < 16 or procs == 1:
-        return [_run(j) for j in jobs]
+    if not jobs:
+        return []
     ctx = mp.get_context("fork")
-    with ctx.Pool(procs) as pool:
-        return pool.map(_run, jobs, chunksize=chunksize)
+    with ctx.Pool(min(procs, len(jobs)), initializer=_limit_memory) as pool:
+        return pool.map(_run, jobs, chunksize=max(1, min(chunksize, len(jobs) // procs + 1)))
